@@ -480,7 +480,7 @@ def world():
 # header mutator histories
 
 CLEAN = ["v", "a b", "é"]
-DIRTY = ["a\rb", "a\nb", "a\r\nb", "\n", "x\r"]
+DIRTY = ["a\rb", "a\nb", "a\r\nb", "\n", "x\r", "value\n", "v\r\n", "\rx", "two\n\n"]
 
 
 def mutators(val, val2):
@@ -596,7 +596,7 @@ def run_mutators(shard, rec, rng, hist_len):
     from werkzeug.wrappers import Response
 
     names = sorted(mutators("v", "v"))
-    vals = CLEAN[:1] + DIRTY[:3]
+    vals = CLEAN[:1] + DIRTY[:3] + [DIRTY[3 + (shard["index"] + int(shard.get("_seed", 0))) % (len(DIRTY) - 3)]]  # a line break inside, and one at an end
     # constructors
     if shard["index"] == 0:
         for cname in CTORS:
